@@ -38,22 +38,22 @@ const (
 )
 
 type pathCond struct {
-	kind   condKind
-	typ    types.Type
-	op     token.Token
-	taken  bool // which edge of the If was followed (true edge = condition holds)
-	neg    bool // condition was written negated (!=)
-	callee string
-	other  ssa.Value
-	at     ssa.Instruction
+	kind       condKind
+	typ        types.Type
+	op         token.Token
+	taken      bool // which edge of the If was followed (true edge = condition holds)
+	neg        bool // condition was written negated (!=)
+	callee     string
+	other      ssa.Value
+	at         ssa.Instruction
 	elemOnLeft bool
 }
 
 type storeKind int
 
 const (
-	storeMarker storeKind = iota
-	storeConverted        // result of json.Number.Float64 on the asserted element
+	storeMarker    storeKind = iota
+	storeConverted           // result of json.Number.Float64 on the asserted element
 	storeConst
 	storeOtherElem // element of another list at the same index
 	storeOther
